@@ -293,6 +293,18 @@ class Family:
             leaf_tuple = any(isinstance(f.output_name, tuple) for f in leaves)
         except Exception:  # noqa: BLE001
             pass
+        # does a member consume as a whole array something that is mapped inside the nest?  (history feature)
+        reduces = False
+        try:
+            inside = {n for f in members for n in ([f.output_name] if isinstance(f.output_name, str) else f.output_name)}
+            mapped = {n for f in members if f.mapspec for n in f.mapspec.input_names + f.mapspec.output_names}
+            for f in members:
+                if f.mapspec:
+                    spec = {sp.name: sp for sp in f.mapspec.inputs}
+                    reduces |= any(p in mapped and (p not in spec or (None in spec[p].axes and p in inside))
+                                   for p in f.parameters if p not in f.bound)
+        except Exception:  # noqa: BLE001
+            pass
         new_name = None if not op["N"] else (tuple(op["N"]) if len(op["N"]) > 1 else op["N"][0])
         a = args(S=[list(s) for s in op["S"]], N=list(op["N"]))
         r = self._rewrite("nest", src, a, lambda pl: pl.nest_funcs(names, new_name), members=members)
@@ -302,6 +314,7 @@ class Family:
             o.feats["merged_tuple_leaf"] = o.feats.get("merged_tuple_leaf", False) or leaf_tuple
             self._finish([src])
         self.events[-1]["_feats"]["merged_tuple_leaf"] = leaf_tuple
+        self.events[-1]["_feats"]["nest_reduces_mapped_name"] = reduces
 
     def op_simplified(self, op: dict) -> None:
         src = op["src"]
@@ -729,6 +742,8 @@ def classify(tr: dict, reached: int) -> tuple[dict, str]:
                                                   "scoped_params_in_source")})
         if e["kind"] in ("nest", "simplified"):
             sig["merged_tuple_leaf"] = f.get("merged_tuple_leaf", False)
+        if e["kind"] == "nest":
+            sig["nest_reduces_mapped_name"] = f.get("nest_reduces_mapped_name", False)
         if e["e"] == "rewrite":
             sig["new_roots_all_bound"] = f.get("new_roots_all_bound", False)
         if e["e"] == "refuse":
@@ -744,7 +759,7 @@ def classify(tr: dict, reached: int) -> tuple[dict, str]:
         # lineage features of the evaluated object
         oid = e["id"]
         lin: list[str] = []
-        feats = {"mutated": False, "merged_tuple_leaf": False, "bound": False, "tuple": False}
+        feats = {"mutated": False, "merged_tuple_leaf": False, "bound": False, "tuple": False, "reduces": False}
         # walk back: collect every operation whose result flows into oid
         flow = {oid}
         for x in reversed(evs[:reached - 1]):
@@ -755,6 +770,7 @@ def classify(tr: dict, reached: int) -> tuple[dict, str]:
                 feats["merged_tuple_leaf"] |= bool(f.get("merged_tuple_leaf")) and x["kind"] in ("nest", "simplified")
                 if x["kind"] in ("nest", "simplified"):
                     feats["bound"] |= bool(f.get("bound_in_source"))
+                    feats["reduces"] |= bool(f.get("nest_reduces_mapped_name"))
                 feats["tuple"] |= bool(f.get("tuple_in_source"))
             elif x["e"] == "mutate" and x["id"] in flow:
                 lin.append(x["kind"])
@@ -772,6 +788,7 @@ def classify(tr: dict, reached: int) -> tuple[dict, str]:
                     "bound_after_pickle": any(k == "update_bound" and "pickle" in lin[j + 1:] for j, k in enumerate(lin)),
                     "via_axis": "add_mapspec_axis" in lin, "via_pickle": "pickle" in lin,
                     "merged_tuple_leaf": feats["merged_tuple_leaf"], "bound_in_merged": feats["bound"],
+                    "nest_reduces_mapped_name": feats["reduces"],
                     "tuple_in_source": feats["tuple"], "mutated": feats["mutated"]})
         did = (f"evaluated {e['out'] or 'map'} with {dict((k, '..') for k, _ in e['inputs'])}" if e["e"] == "eval" else
                f"copied for inspection, structure {e['struct']}")
@@ -874,9 +891,9 @@ def run(ctx: Ctx) -> None:
     ctx.extra["events_by_kind"] = dict(sorted(kinds_seen.items()))
     ctx.extra["eval_events"] = sum(1 for t in traces for e in t["ev"] if e["e"] == "eval")
     s = traces[3]
-    ctx.sample({"script": [{k: v for k, v in op.items() if k not in ("pdesc",)} for op in s["script"]][:8],
-                "events": [{k: v for k, v in e.items() if v != BLANK_EV.get(k) and k not in ("desc", "_feats")}
-                           for e in s["ev"][:6]]})
+    ctx.sample({"script": [{k: v for k, v in op.items() if k not in ("pdesc", "tdesc")} for op in s["script"]
+                           if op["op"] != "eval_all"][:8],
+                "events": [show(e) for e in s["ev"][:8]]})
     rej = validate(ctx, traces, "random")
     report(ctx, traces, rej)
 
@@ -909,19 +926,32 @@ def run(ctx: Ctx) -> None:
         raise MachineryError("binding self-test impossible: fewer than 3 accepted histories")
 
 
+def show(e: dict) -> dict:
+    """An event without its blank fields (for people)."""
+    d = {k: v for k, v in e.items() if v != BLANK_EV.get(k) and k not in ("desc", "_feats", "args", "_msg")}
+    a = {k: v for k, v in e["args"].items() if v != BLANK_ARGS.get(k)}
+    if a:
+        d["args"] = a
+    if e["e"] == "new":
+        d["funcs"] = [f"{f['name']}({', '.join(f['params'])}) -> {', '.join(f['outputs'])}"
+                      + (f" defaults={[p for p, _ in f['defaults']]}" if f["defaults"] else "")
+                      + (f" bound={[p for p, _ in f['bound']]}" if f["bound"] else "")
+                      + (f" mapspec={pmap.ms_string(f['ms'])}" if f["has_ms"] else "") for f in e["desc"]["funcs"]]
+    return d
+
+
 def replay(rep: dict) -> int:
     w = rep["witness"]
     tr = run_script(w["script"])
     for e in tr["ev"]:
         if e["e"] not in ("eval", "probe"):
-            print({k: v for k, v in e.items() if v != BLANK_EV.get(k) and k not in ("desc", "_feats")})
+            print(show(e))
     ctx = Ctx(PROPERTY, "quick", 0)
     ctx.findings = []
     rej = validate(ctx, [tr], "replay", count=False)
     for i, reached in rej.items():
         sig, what = classify(tr, reached)
-        e = tr["ev"][reached - 1]
-        print("REJECTED at event", reached, {k: v for k, v in e.items() if v != BLANK_EV.get(k) and k not in ("desc", "_feats")})
+        print("REJECTED at event", reached, show(tr["ev"][reached - 1]))
         print("  what:", what)
         print("  sig :", json.dumps(sig))
     ctx.cleanup()
